@@ -2,13 +2,13 @@
 PROP = {
     "title": "Encoders are deterministic and all their variants agree",
     "run_modules": ["RunC16"],
-    "n": {"quick": 1000, "thorough": 30000},
+    "n": {"quick": 1000, "thorough": 20000},
     "shards": {"quick": 16, "thorough": 64},
     "level": "proof",
     "technique": "Coq proof that the Map encoder model is invariant under every permutation of every entry list (= every Go hash-iteration order), "
                  "that its output is ordered (attributes strictly ascending, sibling elements ascending, at every depth) and that the indented root rule "
-                 "agrees with the compact one except on one stated shape; model of the Json post-processing, Writer and Maps string/file forms with refutation "
-                 "witnesses for the two Maps JSON forms; model/implementation correspondence by vm_compute on Maps rebuilt with other insertion orders and "
+                 "agrees with the compact one except on one stated shape; model of the Json post-processing, Writer and Maps string/file forms (concatenation theorems; refutation "
+                 "witness for JsonStringIndent's newline separator); model/implementation correspondence by vm_compute on Maps rebuilt with other insertion orders and "
                  "capacities; byte-level Go-side oracle over all 24 encoder entry points",
     "design_ref": "DESIGN.md section 3 (Go maps are association lists), section 6 C16, section 10",
     "assumptions": XML_ASSUME[2:] + [
@@ -24,5 +24,5 @@ PROP = {
                   "oracle compares every entry point across 4 variants x 2 calls, the Writer forms on three sinks, and the Maps string/file forms with the per-Map encodings.",
     "level_note": "Trusted: Coq kernel + vm_compute; the hand-written encoder model is only as good as the correspondence run; determinism of encoding/json and of the Go runtime's "
                   "map implementation under 'all capacities / insertion orders' is sampled (4 variants per Map), not proved; MapSeq determinism is oracle-only; "
-                  "recorded findings: Maps.JsonString and Maps.JsonStringIndent ignore safeEncoding, JsonStringIndent separates documents by a newline.",
+                  "found and fixed: Maps.JsonString / JsonStringIndent ignored safeEncoding (da6537e), XmlGoEmptyElemSyntax wrote <a x=\"1\"</a> (b04ec07); recorded finding: JsonStringIndent separates documents by a newline.",
 }
